@@ -62,40 +62,43 @@ func c08R1(p *Prog, r *Report) {
 		info := fi.Pkg.TypesInfo
 		got := map[string]bool{}
 		defErr := false
-		ast.Inspect(fi.Decl, func(n ast.Node) bool {
-			switch x := n.(type) {
-			case *ast.SwitchStmt:
-				if x.Tag == nil {
-					return true
-				}
-				for _, c := range x.Body.List {
-					cc := c.(*ast.CaseClause)
-					if len(cc.List) == 0 && len(cc.Body) > 0 {
-						if ret, ok := cc.Body[len(cc.Body)-1].(*ast.ReturnStmt); ok {
-							last := ret.Results[len(ret.Results)-1]
-							if id, isID := ast.Unparen(last).(*ast.Ident); !isID || id.Name != "nil" {
-								defErr = true
+		region := p.Region(key)
+		for _, rf := range region {
+			ast.Inspect(rf.Decl, func(n ast.Node) bool {
+				switch x := n.(type) {
+				case *ast.SwitchStmt:
+					if x.Tag == nil {
+						return true
+					}
+					for _, c := range x.Body.List {
+						cc := c.(*ast.CaseClause)
+						if len(cc.List) == 0 && len(cc.Body) > 0 {
+							if ret, ok := cc.Body[len(cc.Body)-1].(*ast.ReturnStmt); ok {
+								last := ret.Results[len(ret.Results)-1]
+								if id, isID := ast.Unparen(last).(*ast.Ident); !isID || id.Name != "nil" {
+									defErr = true
+								}
+							}
+						}
+						for _, e := range cc.List {
+							if tv, ok := info.Types[e]; ok && tv.Value != nil {
+								got[tv.Value.ExactString()] = true
 							}
 						}
 					}
-					for _, e := range cc.List {
-						if tv, ok := info.Types[e]; ok && tv.Value != nil {
-							got[tv.Value.ExactString()] = true
+				case *ast.BinaryExpr:
+					// if-form: s == EnumActionX || …
+					if x.Op == token.EQL {
+						if tv, ok := info.Types[x.Y]; ok && tv.Value != nil && tv.Value.Kind() == constant.String {
+							if _, isID := ast.Unparen(x.X).(*ast.Ident); isID {
+								got[tv.Value.ExactString()] = true
+							}
 						}
 					}
 				}
-			case *ast.BinaryExpr:
-				// if-form: s == EnumActionX || …
-				if x.Op == token.EQL {
-					if tv, ok := info.Types[x.Y]; ok && tv.Value != nil && tv.Value.Kind() == constant.String {
-						if _, isID := ast.Unparen(x.X).(*ast.Ident); isID {
-							got[tv.Value.ExactString()] = true
-						}
-					}
-				}
-			}
-			return true
-		})
+				return true
+			})
+		}
 		// if-form: the function ends in an error return
 		if !defErr && len(fi.Decl.Body.List) > 0 {
 			if ret, ok := fi.Decl.Body.List[len(fi.Decl.Body.List)-1].(*ast.ReturnStmt); ok && len(ret.Results) > 0 {
